@@ -285,7 +285,11 @@ def run(ctx):
         r_ = index.func("cdd.json_schema.utils.parse_utils.json_schema_property_to_param")
         ir_keys = {"typ", "doc", "default", "x_typ"}
         written = {}
-        for n in iter_own(w_.node):
+        from ..region import Region as _Region
+
+        # the emitter and the private helpers of its module it hands the property to
+        wnodes = [n for g_, n in _Region(index, RefGraph(index), w_).nodes() if g_.mod is w_.mod]
+        for n in wnodes:
             if isinstance(n, (ast.Assign, ast.AugAssign)):
                 for t in n.targets if isinstance(n, ast.Assign) else [n.target]:
                     if isinstance(t, ast.Subscript) and isinstance(t.slice, ast.Constant) and isinstance(t.slice.value, str):
